@@ -43,7 +43,35 @@ def run(ctx):
         progs.append(alt({"t": "Str", "s": s, "owned": False}, {"t": "Str", "s": s, "owned": True}, "string_owned"))
         v = rng.scalar(8)
         progs.append(alt({"t": "Int", "ty": "usize", "v": v}, {"t": "Int", "ty": "u64", "v": v}, "usize_u64"))
-    ctx.samples = [progs[0], progs[1], progs[-1]]
+    # the PackageBuilder state machine itself: all sequences of add_element / direct sink pushes to depth 4 (TLC),
+    # random longer ones, and the 255/256 element boundary
+    MENU = [{"t": "Zero"}, {"t": "Int", "ty": "u8", "v": [200]}, {"t": "Str", "s": [72, 105], "owned": False}, {"t": "Package", "ch": []},
+            {"t": "BufferFill", "n": 60, "b": 0}]
+    PUSH = [[], [7], [1, 2, 3, 4, 5, 6, 7, 8]]
+    res = vlib.model_check(ctx, "MC_PackageBuilder.cfg", "MC_PackageBuilder.tla", workers=4)
+    pbs = []
+    for r in res.replays:
+        ops = []
+        for h in r["ops"]:
+            if h["op"] == "add":
+                ops.append({"op": "add", "tree": MENU[h["i"] - 1]})
+            else:
+                d = PUSH[h["i"] - 1]
+                ops.append({"op": "push", "d": d, "via": {0: "vec", 1: "byte", 8: "qword"}[len(d)]})
+        pbs.append({"fam": "pb", "ops": ops})
+    for _ in range(300 if th else 40):
+        ops = []
+        for _ in range(rng.choice([3, 10, 40])):
+            if rng.chance(3, 4):
+                ops.append({"op": "add", "tree": amlgen.random_tree(rng, rng.choice([0, 1, 2]))["tree"]})
+            else:
+                w = rng.choice([1, 2, 4, 8, 3, 0])
+                ops.append({"op": "push", "d": rng.bytes(w), "via": {1: "byte", 2: "word", 4: "dword", 8: "qword"}.get(w, "vec")})
+        ops = [o for o in ops if o["op"] == "push" or not amlgen_has_call(o["tree"])]
+        pbs.append({"fam": "pb", "ops": ops})
+    pbs.append({"fam": "pb", "ops": [{"op": "add", "tree": {"t": "Zero"}}] * 258})
+    vlib.run_and_judge(ctx, pbs, "Trace_Pb.cfg", "Trace_Pb.tla", "c15pb")
+    ctx.samples = [progs[0], progs[1], pbs[0]]
     ctx.distinct = ac.distinct(progs)
     ac.mc_corpus(ctx, progs[::5] if not th else progs[::2], pieces=10)      # the same equalities on the specification
     ac.judge(ctx, progs, "c15")
